@@ -221,7 +221,14 @@ pub fn run_edge(edge: &J, want_trace: bool) -> (Option<Viol>, Vec<J>) {
     let pre_proj = if sess.is_open() { sess.project().ok() } else { None };
     let writes_before = sess.med.counters().writes;
     let med_before = sess.med.handle();
+    // C04 on the medium itself: a call the specification refuses leaves every byte where it was
+    let refused_before = if ev["res"] == "Err" && sess.is_open() { Some(sess.med.snap()) } else { None };
     let r = sess.exec(ev);
+    if let Some(b0) = refused_before {
+        if r == "Err" && sess.med.snap() != b0 {
+            return (Some(Viol { kind: "state", what: format!("the refused {} changed bytes on the medium ({} writes)", ev["op"], sess.med.counters().writes.saturating_sub(writes_before)), detail: json!({}) }), trace);
+        }
+    }
     if let Some((b0, w0)) = quiet_before.clone() {
         let reopened = matches!(ev["op"].as_str().unwrap_or(""), "Reopen" | "Crash");
         let w1 = med_before.counters().writes + if reopened { sess.med.counters().writes } else { 0 };
